@@ -132,3 +132,30 @@ package sqlgen
 //@   assume (dv1 is []byte) ==> reflectKind(reflectValueOf(dv1)) == 23
 //@   ensures (dv1 == nil || (dv1 is int64) || (dv1 is float64) || (dv1 is bool) || (dv1 is string) || (dv1 is time.Time)) && dv1 == dv2 ==> result
 //@   ensures (dv1 == nil || (dv1 is int64) || (dv1 is float64) || (dv1 is bool) || (dv1 is string) || (dv1 is time.Time)) && result ==> dv1 == dv2
+
+// ---- C10 (dispatch kernel of the batch function). One SELECT serves all queries of the batch; each fetched row is then
+// handed to exactly the queries whose filter it satisfies. Filters and rows are compared as the driver values their
+// columns' Valuers produce (so int / int64, named types and pointers denote the same column value - defect s21), the
+// query registered under index i is items[i], and the result list has one entry per query, in order.
+//@ func NewDB$1
+//@   ghost cur int
+//@   call Table.driverValueMap#1 assert arg1 == query.Filter
+//@   call matcher.add assert arg1 == any(i) && arg2 == f
+//@   call Table.extractRow assert arg1 == row
+//@   call Table.driverValueMap#2 assert arg0 == table
+//@   call matcher.match assert arg1 == f
+//@   call makeBatchQuery assert len(arg0) == len(items)
+//@   ensures err == nil ==> len(result) == len(items)
+//@   loop 1 invariant -1 <= rangeindex && rangeindex < len(items) && len(filters) == rangeindex+1 && fresh(filters)
+//@   loop 5 invariant -1 <= rangeindex && rangeindex < len(results) && len(results) == len(items) && len(rawResults) == rangeindex+1 && fresh(rawResults)
+
+// A filter on a nil value (nil interface or nil pointer) never goes into an IN list or behind "=?": NULL does not compare
+// equal in SQL, so it is written as IS NULL and contributes no argument (defect s22).
+//@ func makeBatchQuery
+//@   ghost lastNil bool
+//@   call isNilValue ghost lastNil = ret0
+//@   call append#3 assert !lastNil
+//@   call append#4 assert !lastNil
+
+//@ func isNilValue
+//@   assigns nothing
